@@ -116,7 +116,7 @@ fn gen_programs(seed: u64, n: usize) -> Vec<PipeCase> {
     let mut runner = TestRunner::new(Config { rng_seed: RngSeed::Fixed(seed), failure_persistence: None, ..Config::default() });
     let strat = (prop::collection::vec(crate::props::c12::item_strategy(true), 10..=30)).prop_map(|items| {
         // no quit inside the differential programs (the sentinel must be answered)
-        let items = items.into_iter().filter(|i| !matches!(i, PItem::Quit { .. })).collect();
+        let items = items.into_iter().filter(|i| !matches!(i, PItem::Quit { .. } | PItem::Oversize { .. })).collect();
         PipeCase { items, seg: 0, cuts: vec![], workers: 0 }
     });
     (0..n).map(|_| strat.new_tree(&mut runner).unwrap().current()).collect()
